@@ -7,7 +7,15 @@
 //   consts                                 dump the constant tables the library was compiled with
 #include "poseidon_goldilocks.hpp"
 #include "merklehash_goldilocks.hpp"
+#if __has_include("goldilocks_verif.hpp")
 #include "goldilocks_verif.hpp"
+#endif
+#ifndef GOLDILOCKS_VERIF_HPP
+typedef void (*goldilocks_verif_tracer_t)(int kind, const uint64_t *in, const uint64_t *out, uint64_t n);
+#endif
+// the hook is optional instrumentation of the library: if the tree under test does not define the tracer variable, this weak
+// definition keeps the driver linking and every event is produced without hook records (`hookless`)
+__attribute__((weak)) goldilocks_verif_tracer_t goldilocks_verif_tracer = nullptr;
 #include "vh.hpp"
 #include <mutex>
 #include <fcntl.h>
@@ -268,6 +276,46 @@ static void do_permconc(vh::Out &o, long long ci, const std::vector<std::string>
     }
 }
 
+
+// ---- fallback when the tree under test carries no tracer hook in an entry point (the hook is optional instrumentation):
+// the permutation pairs the definition needs are computed here with the library's scalar permutation (judged by C06) and
+// handed to the trace specification in place of observed ones; the event says so (`hookless`).
+static void oracle_pair(const uint64_t *in12, uint64_t *out12)
+{
+    E a[12], r[12];
+    memcpy(a, in12, 96);
+    goldilocks_verif_tracer_t saved = goldilocks_verif_tracer;
+    goldilocks_verif_tracer = nullptr;
+    PoseidonGoldilocks::hash_full_result_seq(r, a);
+    goldilocks_verif_tracer = saved;
+    memcpy(out12, r, 96);
+    PermRec rec;
+    rec.kind = 99;
+    rec.in.assign(in12, in12 + 12);
+    rec.out.assign(out12, out12 + 12);
+    perms.push_back(std::move(rec));
+}
+// sponge of xs[0..n) through oracle pairs; digest in d[4]
+static void oracle_sponge(const uint64_t *xs, uint64_t n, uint64_t *d)
+{
+    if (n <= 4)
+    {
+        for (int i = 0; i < 4; i++)
+            d[i] = (uint64_t)i < n ? xs[i] : 0;
+        return;
+    }
+    uint64_t cap[4] = {0, 0, 0, 0}, st[12], out[12];
+    for (uint64_t k = 0; 8 * k < n; k++)
+    {
+        for (int i = 0; i < 8; i++)
+            st[i] = 8 * k + i < n ? xs[8 * k + i] : 0;
+        memcpy(st + 8, cap, 32);
+        oracle_pair(st, out);
+        memcpy(cap, out, 32);
+    }
+    memcpy(d, cap, 32);
+}
+
 static void fill(std::vector<uint64_t> &v, uint64_t seed)
 {
     vh::Rng r(seed);
@@ -332,6 +380,41 @@ static void do_lh(vh::Out &o, long long ci, uint64_t len, uint64_t seed, int pat
             PoseidonGoldilocks::linear_hash_avx512((E *)op, (E *)in.p, len);
 #endif
         goldilocks_verif_tracer = nullptr;
+        bool hookless = false;
+        if (perms.empty() && len > 4)
+        {
+            hookless = true;
+            if (variant != 2)
+            {
+                uint64_t d[4];
+                oracle_sponge(data.data(), len, d);
+            }
+            else
+            {
+                // two streams, recorded as interleaved 24-word pairs like the AVX512 hook does
+                std::vector<PermRec> a, b2;
+                uint64_t d[4];
+                oracle_sponge(data.data(), len, d);
+                a.swap(perms);
+                oracle_sponge(data.data() + len, len, d);
+                b2.swap(perms);
+                for (size_t k = 0; k < a.size() && k < b2.size(); k++)
+                {
+                    PermRec r;
+                    r.kind = 99;
+                    r.in.assign(24, 0);
+                    r.out.assign(24, 0);
+                    for (int i = 0; i < 12; i++)
+                    {
+                        r.in[8 * (i / 4) + (i % 4)] = a[k].in[i];
+                        r.in[8 * (i / 4) + 4 + (i % 4)] = b2[k].in[i];
+                        r.out[8 * (i / 4) + (i % 4)] = a[k].out[i];
+                        r.out[8 * (i / 4) + 4 + (i % 4)] = b2[k].out[i];
+                    }
+                    perms.push_back(std::move(r));
+                }
+            }
+        }
         bool same = true;
         for (uint64_t i = 0; i < n; i++)
             if (!(al && i >= off && i < off + outw) && in.p[i] != data[i])
@@ -342,6 +425,7 @@ static void do_lh(vh::Out &o, long long ci, uint64_t len, uint64_t seed, int pat
         o.num("len", len);
         o.num("pat", pat);
         o.num("alias", al);
+        o.boolean("hookless", hookless);
         o.w64arr("input", data.data(), n);
         o.boolean("input_same", same);
         o.raw("perms", perms_json());
@@ -412,6 +496,45 @@ static void do_mt(vh::Out &o, long long ci, uint64_t rows, uint64_t cols, uint64
         }
         });
         goldilocks_verif_tracer = nullptr;
+        bool hookless = false;
+        if (perms.empty() && rows * (cols * dim > 4 ? 1 : 0) + (rows > 1 ? 1 : 0) > 0)
+        {
+            // no hook record although the definition needs permutations: supply the pairs of the definition evaluated on the
+            // input rows and on the RECORDED tree levels
+            hookless = true;
+            uint64_t w = cols * dim, d[4];
+            for (uint64_t r = 0; r < rows; r++)
+            {
+                const uint64_t *row = data.data() + r * w;
+                if (!batched)
+                    oracle_sponge(row, w, d);
+                else
+                {
+                    uint64_t nb = cols > 0 ? (cols + batch - 1) / batch : 1;
+                    std::vector<uint64_t> cat;
+                    for (uint64_t j = 0; j < nb; j++)
+                    {
+                        uint64_t nn = (j == nb - 1) ? cols - (nb - 1) * batch : batch;
+                        oracle_sponge(row + j * batch * dim, nn * dim, d);
+                        cat.insert(cat.end(), d, d + 4);
+                    }
+                    oracle_sponge(cat.data(), cat.size(), d);
+                }
+            }
+            uint64_t pending = rows, next = 0;
+            while (pending > 1)
+            {
+                for (uint64_t i = 0; i < pending / 2; i++)
+                {
+                    uint64_t st[12] = {0}, out[12];
+                    memcpy(st, tree.p + 4 * (next + 2 * i), 32);
+                    memcpy(st + 4, tree.p + 4 * (next + 2 * i + 1), 32);
+                    oracle_pair(st, out);
+                }
+                next += pending;
+                pending /= 2;
+            }
+        }
         E root[4], root2[4];
         E *rootp = root;
         MerklehashGoldilocks::root(rootp, T, nelem);
@@ -420,6 +543,7 @@ static void do_mt(vh::Out &o, long long ci, uint64_t rows, uint64_t cols, uint64
         o.num("ci", ci);
         o.num("rowpat", rowpat);
         o.num("env", env);
+        o.boolean("hookless", hookless);
         o.str("builder", names[b]);
         o.boolean("batched", batched);
         o.num("rows", rows);
